@@ -3,7 +3,7 @@
 # worktree of /repo (EMD_REPO points the harness at it; no evidence is written).  Results: seeded/MATRIX.tsv
 cd /verif
 run_one() {
-  d=$1; id=$(basename $d); prop=${id%%-*}
+  d=/verif/$1; id=$(basename $d); prop=${id%%-*}
   WT=/var/tmp/matrix_$id
   git -C /repo worktree add -q --detach $WT HEAD 2>/dev/null || { echo -e "$id\t$prop\tworktree-failed"; return; }
   if git -C $WT apply $d/patch.diff 2>/dev/null || git -C $WT apply --3way $d/patch.diff 2>/dev/null; then
